@@ -19,7 +19,8 @@ RULE = ('values are generated from components (lexical year from leap/century/40
         'Every elementpath result is observed through its string form / months / seconds and compared with vp/ref/'
         'calendar.py (own day-number arithmetic, exact Fractions). non-trivial = a year outside [1,9999], or a timezone '
         'on an operand, or day >= 29, or a fractional second, or (durations) both months and seconds or a negative '
-        'value; distinct by canonical JSON case.')
+        'value; distinct by canonical JSON case. durgrid: complete enumeration of a finite grid (month pairs up to 24 x the '
+        'boundaries of the four XSD reference spans +- 12 h x sign) for the partial order of xs:duration.')
 ASSUMPTIONS = [
     'XSD 1.0 is self-inconsistent about which BCE years are leap (no year 0, yet Appendix E computes leap years from '
     'the lexical number): for XSD 1.0 values with a BCE year only implementation-independent laws are asserted '
@@ -37,10 +38,10 @@ ASSUMPTIONS = [
     'dateTimes of XSD 3.3.6.2), not <= >=',
 ]
 FLOORS = {
-    'y:bce': (0.20, 'dt:case'), 'y:big': (0.08, 'dt:case'), 'xsd:1.0': (0.30, 'dt:case'), 'tz:some': (0.40, 'dt:case'),
-    'h24': (0.02, 'dt:case'), 'frac': (0.15, 'dt:case'), 'day>=29': (0.08, 'dt:case'),
-    'order:years-differ+tz': (0.05, 'order:case'), 'arith:crosses-year': (0.05, 'arith:case'),
-    'ym:clamped': (0.04, 'arith:ym'), 'ref:judged': (0.55, 'dt:case'), 'ym:in-range': (0.25, 'arith:ym'),
+    'y:bce': (0.20, 'dt:case'), 'y:big': (0.08, 'dt:case'), 'xsd:1.0': (0.30, 'dt:case'), 'tz:some': (0.50, 'dt:case'),
+    'h24': (0.02, 'dt:case'), 'frac': (0.15, 'dt:case'), 'day>=29': (0.20, 'dt:case'),
+    'order:years-differ+tz': (0.10, 'order:case'), 'arith:crosses-year': (0.20, 'arith:case'),
+    'ym:clamped': (0.10, 'arith:ym'), 'ref:judged': (0.70, 'dt:case'), 'ym:in-range': (0.25, 'arith:ym'),
     'dur:order-incomparable': (0.05, 'dur:duration'), 'xorder:implicit-tz': (0.03, 'xpath:case'),
 }
 
@@ -1368,12 +1369,60 @@ def _judge_dur_components(discs, xcase, kind, m, s, c):
 
 
 # --------------------------------------------------------------------------
+# check 'durgrid': finite grid on the XSD partial order of xs:duration (python API), enumerated
+# --------------------------------------------------------------------------
+_GRID_MONTHS = 24
+
+
+def _durgrid_cases():
+    """more months (mb) against fewer months (ma) plus whole days at the boundaries of the four reference spans,
+    shifted by half a day to either side, both signs: 300 month pairs x 4 boundaries x 2 x 2"""
+    for ma in range(0, _GRID_MONTHS + 1):
+        for mb in range(ma + 1, _GRID_MONTHS + 1):
+            spans = [cal.days_from_civil(*_ymd(cal.add_months(r, mb))) - cal.days_from_civil(*_ymd(cal.add_months(r, ma)))
+                     for r in cal._DUR_REFS]
+            for span in sorted({min(spans) - 1, min(spans), max(spans), max(spans) + 1}):
+                for half in (-1, 1):
+                    for sg in (1, -1):
+                        yield {'ma': ma, 'mb': mb, 'days': span, 'half': half, 'sg': sg}
+
+
+def judge_durgrid(case, rec: Recorder | None = None):
+    import elementpath.datatypes as D
+    discs: list[Disc] = []
+    sg = case['sg']
+    us = (case['days'] * 86400 * 10 ** 6 + case['half'] * 43200 * 10 ** 6) * sg
+    m1, s1, m2, s2 = case['mb'] * sg, Fraction(0), case['ma'] * sg, Fraction(us, 10 ** 6)
+    A, B = D.Duration(months=m1), D.Duration(months=m2, seconds=_us_dec(us))
+    rel = cal.duration_order(m1, s1, m2, s2)
+    want = dict(_TRUTH[rel]) if rel is not None else {'lt': False, 'gt': False}
+    want['eq'], want['ne'] = False, True
+    if rel is None:
+        want.pop('le', None), want.pop('ge', None)
+    obs = {}
+    for name, f in _OPS:
+        if name in want:
+            try:
+                obs[name] = f(A, B)
+            except Exception as e:
+                discs.append(Disc(f'C11/durgrid/' + escape_bucket('C11', e).replace('C11/escape/', 'escape:') + f'/{name}', want[name], repr(e), f'{A} {name} {B}'))
+    bad = sorted(n for n in obs if obs[n] != want[n])
+    if bad:
+        discs.append(Disc('C11/durgrid/order/' + ('incomparable' if rel is None else 'comparable'), {n: want[n] for n in bad},
+                          {n: obs[n] for n in bad}, f'{A} vs {B} (reference: {rel or "incomparable"})'))
+    if rec is not None:
+        rec.case(case, nontrivial=True, sample={'check': 'durgrid', 'case': case},
+                 classes=['durgrid:case', 'durgrid:' + ('incomparable' if rel is None else 'comparable')])
+    return discs
+
+
+# --------------------------------------------------------------------------
 # module interface
 # --------------------------------------------------------------------------
 _STRATS = {'value': _case_value(), 'arith': _case_arith(), 'order': _case_order(), 'xpath': case_xpath,
            'duration': _case_duration()}
 _JUDGES = {'value': judge_value, 'arith': judge_arith, 'order': judge_order, 'xpath': judge_xpath,
-           'duration': judge_duration}
+           'duration': judge_duration, 'durgrid': judge_durgrid}
 
 
 def selftest():
@@ -1419,17 +1468,28 @@ def jobs(tier, seed):
         s, n = (qs, qn) if tier == 'quick' else (ts, tn)
         for i in range(s):
             out.append({'check': chk, 'shard': i, 'n': n, 'seed': derive_seed(seed, 'C11', chk, i)})
+    out.append({'check': 'durgrid'})
     return out
 
 
 def run_job(job, rec: Recorder):
     chk = job['check']
+    if chk == 'durgrid':
+        for case in _durgrid_cases():
+            rec.discs_of(chk, case, judge_durgrid(case, rec))
+        return
     jd = _JUDGES[chk]
     hyp_collect(_STRATS[chk], lambda case: rec.discs_of(chk, case, jd(case, rec)), job['n'], job['seed'], rec)
 
 
 def shrink_job(job, bucket, budget):
     chk = job['check']
+    if chk == 'durgrid':
+        for case in _durgrid_cases():           # enumeration order is smallest first
+            for d in judge_durgrid(case):
+                if d.bucket == bucket:
+                    return case, d
+        return None
     return hyp_shrink(_STRATS[chk], _JUDGES[chk], bucket, job['n'], job['seed'], budget)
 
 
